@@ -209,3 +209,16 @@ func TMHeader(chainID string, height, sec int64, appHash, nextValsHash []byte) *
 	verif.Assume(sec >= 0 && sec < 253402300800)
 	return &ibctm.Header{SignedHeader: &cmtproto.SignedHeader{Header: &cmtproto.Header{ChainID: chainID, Height: height, Time: time.Unix(sec, 0).UTC(), AppHash: appHash, NextValidatorsHash: nextValsHash}}}
 }
+
+// CoinValidate models sdk.Coin.Validate: valid denomination, non-nil and non-negative amount.
+//
+//verif:model (github.com/cosmos/cosmos-sdk/types.Coin).Validate
+func CoinValidate(c sdk.Coin) error {
+	if err := sdk.ValidateDenom(c.Denom); err != nil {
+		return err
+	}
+	if c.Amount.IsNil() || c.Amount.IsNegative() {
+		return errApp
+	}
+	return nil
+}
